@@ -7,7 +7,7 @@ pub const METHOD_POOL: &[&str] = &[
     "substring", "trim", "trimStart", "trimEnd", "concat", "replace", "replaceAll", "slice", "padStart", "padEnd", "repeat", "toLowerCase",
     "toUpperCase", "join", "foo", "bar",
 ];
-pub const BARE_POOL: &[&str] = &["aloneMethod", "cleanup"];
+pub const BARE_POOL: &[&str] = &["aloneMethod", "cleanup", "eval"];
 pub const LITERAL_CALLER_METHODS: &[&str] = &["concat", "replace", "replaceAll", "padEnd", "padStart", "repeat"];
 
 #[derive(Clone, Debug)]
@@ -248,7 +248,14 @@ pub fn gen_cfg(t: &mut Tape, o: &CfgOpts) -> CfgInfo {
             cfg.insert("literals".into(), json!(true));
         }
     }
-    match t.weighted(&[3, 2, 1, 1, 1, 1, 1]) {
+    match t.weighted(&[3, 2, 1, 1, 1, 1, 1, 1, 1]) {
+        // the names are not case sensitive: the package's own scripts pass 'Debug'
+        7 => {
+            cfg.insert("telemetryVerbosity".into(), json!("Debug"));
+        }
+        8 => {
+            cfg.insert("telemetryVerbosity".into(), json!(*t.pick(&["Off", "oFF", "dEbUg", "Mandatory"])));
+        }
         0 => {}
         1 => {
             cfg.insert("telemetryVerbosity".into(), json!("DEBUG"));
